@@ -174,20 +174,45 @@ func (w *World) RunFunc(pkg, key string, opts RunOpts) (fr *FuncRun) {
 			vc.Assume(ctx.evalBool(r))
 		}
 	}
+	if ex.fc != nil && ex.fc.Has("opt", "prune_infeasible") {
+		ex.prune = true
+		ex.pruneAssumes = append([]*Term(nil), vc.Assumes...)
+	}
 	rpc, rst, vals := ex.runBody(True, st)
 	fr.RetPC, fr.RetSt, fr.RetVals = rpc, rst, vals
+	if ex.fc != nil {
+		for _, d := range ex.fc.Dirs {
+			if (d.Kind == "lemma" || d.Kind == "lemma_chain" || d.Kind == "assume_def") && !ex.usedDirs[d.Line] {
+				fr.Err = fmt.Sprintf("contract directive %s[%s] of %s refers to a program point that does not exist: %s", d.Kind, d.Label, key, strings.SplitN(d.Text, "(", 2)[0])
+				return
+			}
+		}
+	}
+	if ex.poolItem != nil {
+		// the pool item taken by this call is put back on every return path (steady-state assumption
+		// of C17, ownership condition of C14)
+		for k, re := range ex.rets {
+			vc.Oblige(fmt.Sprintf("gocvss%s.%s/pool/item_put_back/return%d", pkg, key, k+1), "frame", Implies(re.pc, Not(re.st.owned)))
+		}
+	}
 	if ex.fc != nil && !opts.SkipPost {
 		if ex.fc.Has("opt", "split_returns") {
 			// one obligation per return site: simpler queries, and a failure names the path
 			for k, re := range ex.rets {
 				post := &Ctx{ex: ex, fn: fn, fc: ex.fc, st: re.st, old: entry, params: params, results: re.vals, pc: re.pc}
 				for _, d := range ex.fc.Of("ensures") {
+					if strings.Contains(d.Text, "allocs") && !opts.TrackAllocs {
+						continue
+					}
 					vc.Oblige(fmt.Sprintf("gocvss%s.%s/post/%s/return%d", pkg, key, d.Label, k+1), "post", Implies(re.pc, post.evalBool(d.Text)))
 				}
 			}
 		} else {
 			post := &Ctx{ex: ex, fn: fn, fc: ex.fc, st: rst, old: entry, params: params, results: vals, pc: rpc}
 			for _, d := range ex.fc.Of("ensures") {
+				if strings.Contains(d.Text, "allocs") && !opts.TrackAllocs {
+					continue
+				}
 				vc.Oblige(fmt.Sprintf("gocvss%s.%s/post/%s", pkg, key, d.Label), "post", Implies(rpc, post.evalBool(d.Text)))
 			}
 		}
@@ -387,6 +412,9 @@ func dischargeOne(fr *FuncRun, o *Oblig, timeoutS int) ObResult {
 	var assumes []*Term
 	if fr.VC != nil {
 		assumes = fr.VC.Assumes[:o.NAssume]
+		if o.Hyps != nil {
+			assumes = o.Hyps
+		}
 	}
 	termMu.Lock()
 	q := hasQuant(append(append([]*Term(nil), assumes...), o.Cond)...)
